@@ -1,26 +1,25 @@
 (* C14 property theorems only: each closed by `exact <lemma>` with Print Assumptions beneath.
-   All definitions named *_nverts, *_faces, *_edges, *_cells, *_coords, *_rejects are GENERATED from the current
-   source of mouette/procedural (Gen.v); admissible parameters: grids/triangles nu, nv >= 2; torus M, m >= 3;
-   sphere_uv n >= 1, L >= 3; cylinder N >= 3; ring N >= 3, n_cover >= 1; flat_ring N * n_cover >= 1; chains n >= 1.
+   All definitions named *_nverts, *_faces, *_edges, *_cells, *_coords, *_rejects, ring_bisect_*, icosphere_* are GENERATED
+   from the current source of mouette/procedural (Gen.v).  Admissible parameters: grids/triangles nu, nv >= 2; torus
+   M, m >= 3; sphere_uv n >= 1, L >= 3; cylinder N >= 3; ring N >= 3, n_cover >= 1; flat_ring N * n_cover >= 1; chains n >= 1.
 
-   FULL STATEMENT of the property for a surface generator g with parameters p (kept here because two of the
-   theorems below prove only part of it):
-     well_formed (g_nverts p) (g_faces p)                         -- indices in range, every vertex used, simple faces,
-                                                                     no directed edge twice (oriented edge-manifold, no repeated face)
-     /\ vertex_manifold (g_nverts p) (g_faces p)                  -- every vertex umbrella is ONE fan
-     /\ closed / border_is_cycle(s), connected, euler = 2 | 0 | 1 | 0   -- the topology of the named shape
-     /\ counts = the documented functions of p  /\  vertices on the named surface  /\  switches honoured.
-   C14_topology_partial proves the third line for every parametric generator except unit_triangle (of which only
-   connectedness is proved: its border loop and Euler characteristic are missing), and the second line
-   (vertex umbrellas) is proved only for the constant-table solids (C14_tables); for the parametric generators both are
-   established, per tested parameter tuple, by the kernel-evaluated checker whose soundness is C14_runtime_checker_sound.
-   C14_on_surface_partial leaves out the rim of flat_ring and sphere_fibonacci (both checked numerically on every run);
-   C14_params_honoured_partial leaves out the apex angle defect of ring (bisection loop, checked numerically only). *)
+   The property for a surface generator g with parameters p:
+     well_formed (g_nverts p) (g_faces p)          -- C14_well_formed: indices in range, every vertex used, simple faces,
+                                                      no directed edge twice (oriented edge-manifold, no repeated face)
+     /\ vertex_manifold (g_nverts p) (g_faces p)   -- C14_vertex_manifold: every vertex umbrella is ONE fan
+     /\ closed / border_is_cycle(s), connected, euler = 2 | 0 | 1 | 0   -- C14_topology
+     /\ counts (C14_counts), vertices on the named surface (C14_on_surface), switches honoured (C14_params_honoured).
+   All of these are proved for every admissible parameter of every generator translated into Gen.v; the constant-table
+   solids are covered by C14_tables.  C14_ring_apex_defect is about the generated body of ring's bisection loop and is
+   conditional on three named facts about the real angle function geometry.angle_3pts (monotone in the apex height,
+   defect 0 at height 0, no early stop while the bracket is enlarged) and on the loop terminating (partial correctness).
+   Outside the generated model: the faces of sphere_fibonacci(build_surface) (scipy ConvexHull) and the loop subdivision
+   inside icosphere (its base mesh, number of rounds and radial projection ARE generated and covered by C14_on_surface). *)
 From Coq Require Import ZArith List Bool Reals.
 Import ListNotations.
 Require Import MV.Lib.Base MV.C14.Model MV.C14.Gen MV.C14.ProofsLib.
 Require Import MV.C14.ProofsGrid MV.C14.ProofsTri MV.C14.ProofsTorus MV.C14.ProofsSphere MV.C14.ProofsCyl
-               MV.C14.ProofsRing MV.C14.ProofsPoly MV.C14.ProofsTables MV.C14.ProofsCoords MV.C14.ProofsAll.
+               MV.C14.ProofsRing MV.C14.ProofsPoly MV.C14.ProofsTables MV.C14.ProofsCoords MV.C14.ProofsBisect MV.C14.ProofsAll.
 Open Scope Z_scope.
 
 Theorem C14_well_formed :
@@ -49,7 +48,7 @@ Theorem C14_counts :
 Proof. exact all_counts. Qed.
 Print Assumptions C14_counts.
 
-Theorem C14_topology_partial :
+Theorem C14_topology :
   (forall nu nv t u, 2 <= nu -> 2 <= nv ->
      disk_surface (unit_grid_nverts nu nv t u) (unit_grid_faces nu nv t u) (grid_border_cycle nu nv)) /\
   (forall M m t, 3 <= M -> 3 <= m -> closed_surface (torus_nverts M m t) (torus_faces M m t) 0) /\
@@ -64,9 +63,21 @@ Theorem C14_topology_partial :
      disk_surface (ring_nverts N false k) (ring_faces N false k) (map (fun t => t + 1) (zrange (N * k)))) /\
   (forall N k, 1 <= N * k ->
      disk_surface (flat_ring_nverts N k) (flat_ring_faces N k) (map (fun t => t) (zrange (N * k + 2)))) /\
-  (forall nu nv u, 2 <= nu -> 2 <= nv -> connected (unit_triangle_nverts nu nv u) (unit_triangle_faces nu nv u)).
+  (forall nu nv u, 2 <= nu -> 2 <= nv ->
+     disk_surface (unit_triangle_nverts nu nv u) (unit_triangle_faces nu nv u) (tri_border_cycle nu nv)).
 Proof. exact all_topology. Qed.
-Print Assumptions C14_topology_partial.
+Print Assumptions C14_topology.
+
+Theorem C14_vertex_manifold :
+  (forall nu nv t u, 2 <= nu -> 2 <= nv -> vertex_manifold (unit_grid_nverts nu nv t u) (unit_grid_faces nu nv t u)) /\
+  (forall nu nv u, 2 <= nu -> 2 <= nv -> vertex_manifold (unit_triangle_nverts nu nv u) (unit_triangle_faces nu nv u)) /\
+  (forall M m t, 3 <= M -> 3 <= m -> vertex_manifold (torus_nverts M m t) (torus_faces M m t)) /\
+  (forall n L, 1 <= n -> 3 <= L -> vertex_manifold (sphere_uv_nverts n L) (sphere_uv_faces n L)) /\
+  (forall N c, 3 <= N -> vertex_manifold (cylinder_nverts N c) (cylinder_faces N c)) /\
+  (forall N o k, 3 <= N -> 1 <= k -> vertex_manifold (ring_nverts N o k) (ring_faces N o k)) /\
+  (forall N k, 1 <= N * k -> vertex_manifold (flat_ring_nverts N k) (flat_ring_faces N k)).
+Proof. exact all_vertex_manifold. Qed.
+Print Assumptions C14_vertex_manifold.
 
 Theorem C14_tables :
   (disk_like triangle_nverts triangle_faces [0; 1; 2]) /\
@@ -91,7 +102,7 @@ Theorem C14_table_counts :
 Proof. exact all_table_counts. Qed.
 Print Assumptions C14_table_counts.
 
-Theorem C14_params_honoured_partial :
+Theorem C14_params_honoured :
   (* triangulate: all faces are triangles, resp. quads *)
   (forall nu nv (t u : bool), 2 <= nu -> 2 <= nv -> Forall (fun f : list Z => zlen f = if t then 3 else 4) (unit_grid_faces nu nv t u)) /\
   (forall M m (t : bool), Forall (fun f : list Z => zlen f = if t then 3 else 4) (torus_faces M m t)) /\
@@ -112,9 +123,23 @@ Theorem C14_params_honoured_partial :
   (* dual: one face per vertex of the input (its ring of faces), one vertex per face *)
   (forall v2f nV nF, 0 <= nV -> 0 <= nF -> dual_mesh_nverts v2f nV nF = nF /\ dual_mesh_faces v2f nV nF = map v2f (zrange nV)).
 Proof. exact all_switches. Qed.
-Print Assumptions C14_params_honoured_partial.
+Print Assumptions C14_params_honoured.
 
-Theorem C14_on_surface_partial :
+Theorem C14_ring_apex_defect : forall (ang3 : vec R -> vec R -> vec R -> R) (A B : vec R) (N : Z) (d : R),
+  (forall a b, (0 <= a <= b)%R -> (g ang3 A B N a <= g ang3 A B N b)%R) ->
+  (g ang3 A B N 0 <= d)%R ->
+  (forall h1 h2, (h1 = 0 /\ h2 = 10)%R \/ (10 <= h1 /\ h2 = 2 * h1)%R -> (g ang3 A B N h2 < d)%R ->
+     (eps <= Rabs (g ang3 A B N h1 - g ang3 A B N h2))%R) ->
+  forall fuel s, do_while (step ang3 A B N d) fuel (ring_bisect_init Rops) = Some s ->
+  exists h, ring_bisect_apex Rops (fst s) (snd s) = (0, 0, h)%R /\ (Rabs (g ang3 A B N h - d) < eps)%R.
+Proof. exact ring_apex. Qed.
+Print Assumptions C14_ring_apex_defect.
+
+Theorem C14_ring_defect_clamped : forall x : R, (0 <= ring_defect_clamp Rops x <= 2 * PI - 1 / 100)%R.
+Proof. exact ring_clamp_range. Qed.
+Print Assumptions C14_ring_defect_clamped.
+
+Theorem C14_on_surface :
   (forall n L center radius, Forall (fun p => dist2 p center = (radius * radius)%R) (sphere_uv_coords Rops n L center radius)) /\
   (forall M m R0 r t, Forall (on_torus R0 r) (torus_coords Rops M m R0 r t)) /\
   (forall center radius u, Forall (fun p => dist2 p center = (radius * radius)%R) (icosahedron_coords Rops center radius u)) /\
@@ -130,9 +155,17 @@ Theorem C14_on_surface_partial :
   (forall (P1 P2 : vec R) (radius : R) N caps, (0 < dot3 (vsub Rops P2 P1) (vsub Rops P2 P1))%R ->
      let a := vnormalized Rops (vsub Rops P2 P1) in
      exists ringpts, cylinder_coords Rops P1 P2 radius N caps = ringpts ++ (if caps then [P1; P2] else []) /\
-       Forall (fun p => exists P, (P = P1 \/ P = P2) /\ dot3 (vsub Rops p P) a = 0%R /\ dist2 p P = (radius * radius)%R) ringpts).
+       Forall (fun p => exists P, (P = P1 \/ P = P2) /\ dot3 (vsub Rops p P) a = 0%R /\ dist2 p P = (radius * radius)%R) ringpts) /\
+  (forall N d k, exists rim, flat_ring_coords Rops N d k = (0, 0, 0)%R :: rim /\ Forall on_unit_circle rim) /\
+  (forall n (radius : R) b, 1 <= n -> Forall (fun p => dot3 p p = (radius * radius)%R) (sphere_fibonacci_coords Rops n radius b)) /\
+  (forall k (center : vec R) (radius : R) v, (0 < dot3 (vsub Rops v center) (vsub Rops v center))%R ->
+     dist2 (icosphere_project Rops k center radius v) center = (radius * radius)%R) /\
+  (forall k (center : vec R) (radius : R),
+     icosphere_base_faces = icosahedron_faces false /\ icosphere_base_nverts = icosahedron_nverts false /\
+     icosphere_base_coords Rops k center radius = icosahedron_coords Rops center radius false /\
+     icosphere_rounds k = k /\ icosphere_loop_passes = 1).
 Proof. exact all_on_surface. Qed.
-Print Assumptions C14_on_surface_partial.
+Print Assumptions C14_on_surface.
 
 Theorem C14_runtime_checker_sound : forall V F,
   (is_sphere (topo_of V F) = true -> sphere_like V F) /\ (is_torus (topo_of V F) = true -> torus_like V F) /\
